@@ -86,7 +86,10 @@ def run(ctx):
   ctx.borrow(c08.rule_extract, "R-C18-INVERT", lambda r: r.where.startswith("hidden_number_problem:"))
   # sigs[idx] with idx from the issuer map: the map must be built over the very list it indexes (the per-curve sub-batch), else IndexError on mixed batches
   ctx.borrow(c08.rule_group, "R-C18-ALIGN", lambda r: r.where.startswith("ecdsa_sig_checks:"))
-  ctx.expect("R-C18-ALIGN", 13, "four Check bodies consuming a batched search + BatchGCD one result per input + index maps of the two per-curve ECDSA checks")
+  # a second AttachFactors on the same key re-reads the recorded set: reader and writer agree on the format (base-16 strings of a literal set), else ValueError
+  from . import c01
+  ctx.borrow(c01.rule_merge, "R-C18-ALIGN")
+  ctx.expect("R-C18-ALIGN", 14, "four Check bodies consuming a batched search + BatchGCD one result per input + index maps of the two per-curve ECDSA checks")
   ctx.expect("R-C18-WINDOW", 1, "one windowed lattice call")
   ctx.expect("R-C18-EMPTY", 24 + 3, "24 Check bodies + 3 entry points")
   ctx.expect("R-C18-NULL", 14, "seven draws from CURVE_FACTORY + optional constructor arguments + two consumers of InverseSqrt2exp")
